@@ -107,13 +107,13 @@ pub fn for_property(prop: &str) -> Vec<Family> {
             f("drop", "last owner dropped under load; no operation may touch the value afterwards", gen_drop, Q / 8, T / 8),
         ],
         "C15" => vec![
-            Family { name: "panic", what: "one operation panics (the position enumerates 10 kinds of operation x runner context); afterwards every kind of call on the panicked object, ordinary programs on healthy objects, and a capacity probe", gen: gen_panic, quick_runs: Q, thorough_runs: T, sweep_width: 10, gen_at: Some(g_panic_sweep) },
+            Family { name: "panic", what: "one operation panics (the position enumerates 10 kinds of operation x runner context); afterwards every kind of call on the panicked object, ordinary programs on healthy objects, and a capacity probe", gen: gen_panic, quick_runs: Q / 2, thorough_runs: T / 2, sweep_width: 10, gen_at: Some(g_panic_sweep) },
         ],
         "C16" => vec![
             f("pipe-drop", "output stream dropped while the input stays open and silent", gen_pipe_drop, Q / 2, T / 2),
             sw("pipe-drop-sweep", "the drop of the output injected at every scheduling point of the context polling the input", gen_pipe_drop_sweep, Q / 2, T / 2, 64),
         ],
-        "C17" => vec![f("pool", "maximum 0..3 lazily grown, threads racing to spawn, limit raised/lowered/extra threads/despawn between phases", gen_pool, Q, T)],
+        "C17" => vec![f("pool", "maximum 0..3 lazily grown, threads racing to spawn, limit raised/lowered/extra threads/despawn between phases", gen_pool, Q / 2, T / 2)],
         "C09" => vec![
             f("try", "try_sync racing every other operation kind and their completion paths", g_try, Q * 3 / 4, T * 3 / 4),
             f("mix-kick", "sync/try_sync callers and wakers racing with pool threads going dormant", g_kick, Q / 4, T / 4),
